@@ -60,6 +60,12 @@ def dominators(body):
     return dom
 
 
+def mentions(ty, adt):
+    """Type string `ty` mentions ADT path `adt` as a whole path."""
+    import re
+    return re.search(r'(?<![\w:])' + re.escape(adt) + r'(?![\w])', ty) is not None
+
+
 def callee_of(term):
     """(declared path, resolved path or None, gargs, is_trait_method) for a Call terminator."""
     f = term['func']
@@ -84,6 +90,23 @@ class CallGraph(object):
         for imp in facts['impls']:
             if imp.get('trait') == 'std::ops::Drop':
                 self.drop_impls[imp.get('self_adt') or imp['self']] = [norm_path(x) for x in imp['items']]
+        # ADTs whose drop glue reaches a local Drop impl (transitively through fields)
+        self.needs_drop = {a: set(items) for a, items in self.drop_impls.items()}
+        changed = True
+        while changed:
+            changed = False
+            for adt in facts['adts']:
+                ap = adt['path']
+                for v in adt['variants']:
+                    for fld in v['fields']:
+                        if fld['ty'].startswith(('&', '*const', '*mut')):
+                            continue
+                        for d, items in list(self.needs_drop.items()):
+                            if d != ap and mentions(fld['ty'], d):
+                                cur = self.needs_drop.setdefault(ap, set())
+                                if not items <= cur:
+                                    cur |= items
+                                    changed = True
         self.edges = {}
         self.sites = {}
         for p, fn in self.fns.items():
@@ -119,8 +142,8 @@ class CallGraph(object):
                 self._operand_refs(t['func'], out)
             elif t['k'] == 'Drop':
                 ty = t.get('ty', '')
-                for adt, items in self.drop_impls.items():
-                    if ty.startswith(adt):
+                for adt, items in self.needs_drop.items():
+                    if mentions(ty, adt):
                         out.update(items)
         return out
 
